@@ -145,6 +145,7 @@ func (mr *msgReader) putFlateReader() {
 }
 
 func (mr *msgReader) close() {
+	verifPoint(mr.c, "msgReader.close")
 	mr.c.readMu.forceLock()
 	mr.putFlateReader()
 	if mr.dict != nil {
@@ -301,8 +302,10 @@ func (c *Conn) handleControl(ctx context.Context, h header) (err error) {
 
 	switch h.opcode {
 	case opPing:
+		verifPoint(c, "handleControl.ping")
 		return c.writeControl(ctx, opPong, b)
 	case opPong:
+		verifPoint(c, "handleControl.pong")
 		c.activePingsMu.Lock()
 		pong, ok := c.activePings[string(b)]
 		c.activePingsMu.Unlock()
@@ -327,6 +330,7 @@ func (c *Conn) handleControl(ctx context.Context, h header) (err error) {
 	err = fmt.Errorf("received close frame: %w", ce)
 	c.writeClose(ce.Code, ce.Reason)
 	c.readMu.unlock()
+	verifPoint(c, "handleControl.preclose")
 	c.close()
 	return err
 }
@@ -348,6 +352,7 @@ func (c *Conn) reader(ctx context.Context) (_ MessageType, _ io.Reader, err erro
 	if err != nil {
 		return 0, nil, err
 	}
+	verifPoint(c, "reader.gotHeader")
 
 	if h.opcode == opContinuation {
 		err := errors.New("received continuation frame without text or binary frame")
@@ -403,6 +408,8 @@ func (mr *msgReader) Read(p []byte) (n int, err error) {
 		return 0, fmt.Errorf("failed to read: %w", err)
 	}
 	defer mr.c.readMu.unlock()
+	verifUse(mr.c, "msgReader.Read", true, mr.flateReader, mr.flateBufio, mr.dict)
+	defer verifUse(mr.c, "msgReader.Read", false, mr.flateReader, mr.flateBufio, mr.dict)
 
 	n, err = mr.limitReader.Read(p)
 	if mr.flate && mr.flateContextTakeover() {
